@@ -782,7 +782,20 @@ def gen_program(rng, maxlen):
     return prog
 
 
+def twin_programs():
+    """two values with the same terminal string and different text: `f + g` and `f + str(g)` (the str is not parsed
+    by +, its escape sequences become text of a run), compared with each other between observations"""
+    Z = [0] * 8
+    for tail_runs, rendered in (([["b", [2, 0, 0, 0, 0, 0, 0, 0]]], "\x1b[31mb\x1b[39m"),
+                                ([["Tb", [0, 0, 1, 0, 0, 0, 0, 0]]], "\x1b[1mTb\x1b[0m")):
+        for first in (["len", 2], ["s", 2], ["str", 2], ["width", 3], ["len", 3]):
+            yield [["new", [[">>> ", [0, 5, 0, 0, 0, 0, 0, 0]]]], ["new", tail_runs], ["add", 0, 1], ["addstr", 0, rendered],
+                   first, ["eq", 2, 3], ["len", 3], ["s", 3], ["len", 2], ["s", 2], ["eq", 3, 2], ["str", 3], ["width", 2]]
+
+
 def generate(rng, tier):
+    for prog in twin_programs():
+        yield ("prog", prog)
     n = 6000 if tier == "thorough" else 600
     for i in range(n):
         maxlen = 12 if tier == "quick" or i % 3 else 30
